@@ -586,7 +586,7 @@ def sig_for(r, clause, tag, same_as_model):
     return f"C05:{strategy}:{head}"
 
 
-def check_round(chk, stats, r, out, spec, scenario, extra=None):
+def check_round(chk, stats, r, out, spec, scenario):
     """ compare one conciliation round with the model, read the judges; returns list of (signature, what, detail) """
     m_calls, m_req, j1, j2, tag = parse_out(out)
     impl_calls = ' '.join(r.calls) or '-'
@@ -725,56 +725,48 @@ def case_b(chk, stats, spec, master=True):
 
 
 # ------------------------------------------------------------------------------------------------ shrinking, reporting
+class Quiet:
+    """ a Check stand-in for re-runs made while shrinking: same model driver, nothing recorded """
+    def __init__(self, chk): self.chk = chk; self.notes = []
+    def driver(self, *a, **k): return self.chk.driver(*a, **k)
+    def disagree(self, *a, **k): pass
+
+
 def shrink_spec(chk, spec, sig, runner):
     """ drop processes / applications / events while the same signature is still reported """
     def flat(sp): return [(a['name'], p['name']) for a in sp['apps'] for p in a['procs']]
-    def rebuild(sp, keep):
+
+    def rebuild(sp, keep, events=None):
         new = copy.deepcopy(sp); keepset = set(keep)
         for a in new['apps']: a['procs'] = [p for p in a['procs'] if (a['name'], p['name']) in keepset]
         new['apps'] = [a for a in new['apps'] if a['procs']]
         names = {(a['name'], p['name']) for a in new['apps'] for p in a['procs']}
-        new['events'] = [e for e in new['events'] if e[0] == 'tick' or (e[2], e[3]) in names]
+        evs = new['events'] if events is None else events
+        new['events'] = [e for e in evs if e[0] == 'tick' or (e[2], e[3]) in names]
         return new
-    null = {'rounds': 0, 'strategies': {}, 'nontrivial': set(), 'conflicts_per_round': {}, 'stopping_stream_rounds': 0,
-            'call_kinds': {}, 'rounds_with_ties': 0, 'evaluations': 0, 'stop_commands': 0, 'stop_requests': 0,
-            'start_requests': 0, 'fsm_evaluations': 0, 'fsm_results': {}, 'scripts': 0, 'final_states': {}, 'step_kinds': {}}
-    class Quiet:
-        def __init__(self, chk): self.chk = chk; self.notes = []
-        def driver(self, *a, **k): return self.chk.driver(*a, **k)
-        def disagree(self, *a, **k): pass
     q = Quiet(chk)
-    def still(keep):
-        sp = rebuild(spec, keep)
+
+    def fails(sp):
         if not sp['apps']: return False
         try:
-            return any(f[0] == sig for f in runner(q, copy.deepcopy(null), sp))
+            return any(f[0] == sig for f in runner(q, new_stats(), sp))
         except Exception:
             return False
-    keep = shrink(flat(spec), still, max_tests=60)
+    keep = shrink(flat(spec), lambda k: fails(rebuild(spec, k)), max_tests=60)
     small = rebuild(spec, keep)
-    ev = shrink(small['events'], lambda evs: still(keep) if False else any(
-        f[0] == sig for f in runner(q, copy.deepcopy(null), dict(small, events=evs))), max_tests=30) if small['events'] else []
-    small = dict(small, events=ev if small['events'] else [])
-    try:
-        ok = any(f[0] == sig for f in runner(q, copy.deepcopy(null), small))
-    except Exception:
-        ok = False
-    return small if ok else spec
+    if small['events']:
+        evs = shrink(small['events'], lambda e: fails(rebuild(small, keep, e)), max_tests=30)
+        if fails(rebuild(small, keep, evs)): small = rebuild(small, keep, evs)
+    return small if fails(small) else spec
 
 
 def report(chk, stats, findings, runner):
+    """ feed the rejections to the Check; the first few new signatures are shrunk first """
     for sig, what, det in findings:
-        if sig in chk.known or sig in chk.rejections:
-            chk.reject(sig, what, det); continue
-        if stats['shrinks'] < 6 and 'spec' in det:
+        if sig not in chk.known and sig not in chk.rejections and stats['shrinks'] < 6 and 'spec' in det:
             stats['shrinks'] += 1
             small = shrink_spec(chk, det['spec'], sig, runner)
-            class Quiet:
-                notes = []
-                def driver(self, *a, **k): return chk.driver(*a, **k)
-                def disagree(self, *a, **k): pass
-            null = new_stats()
-            for s2, w2, d2 in runner(Quiet(), null, small):
+            for s2, w2, d2 in runner(Quiet(chk), new_stats(), small):
                 if s2 == sig: what, det = w2, d2; break
         chk.reject(sig, what, det)
 
@@ -814,6 +806,11 @@ def load_corpus():
 
 
 def run_replay_case(chk, stats, c):
+    if 'spec' not in c:
+        # a replay written for a broken obligation / correspondence: re-run its first disagreeing case
+        first = next((d for d in c.get('first_disagreements', []) if d and 'spec' in d), None)
+        if first is None: return [], case_a
+        c = {'spec': first['spec'], 'scenario': first.get('scenario', 'A')}
     spec = c['spec']; sc = c.get('scenario', 'A')
     if sc.startswith('A'): return case_a(chk, stats, spec), case_a
     runner = lambda ch, st, sp: case_b(ch, st, sp, c.get('master', True))
